@@ -66,6 +66,34 @@ class _Gap:
         raise ModelGap(f"{type(self).__name__}.{name} not modelled")
 
 
+class _PanderaAccessor:
+    """pandera.accessors.pandas_accessor.PanderaAccessor: the schema an object was last validated with, per OBJECT (a copy or
+    any derived frame starts without one)"""
+
+    def __init__(self, obj):
+        self._pandas_obj, self._schema = obj, None
+
+    def add_schema(self, schema):
+        self._schema = schema
+        return self._pandas_obj
+
+    @property
+    def schema(self):
+        return self._schema
+
+
+class _WithAccessor(_Gap):
+    @property
+    def pandera(self):
+        acc = self.__dict__.get("_pandera_accessor")
+        if acc is None:
+            acc = _PanderaAccessor(self)
+            object.__setattr__(self, "_pandera_accessor", acc)
+        return acc
+
+
+
+
 # =========================================================================== regex -> z3
 ALL = z3.Full(z3.ReSort(z3.StringSort()))
 ANYCH = z3.AllChar(z3.ReSort(z3.StringSort()))
@@ -341,7 +369,7 @@ class StrPlaceholderSeries(_Gap):
 
 
 # =========================================================================== Series
-class Series(_Gap):
+class Series(_WithAccessor):
     def __init__(self, vals, nulls=None, present=None, index=None, name=None, dtype=None, kind=None):
         n = len(vals)
         self.dtype = dtype if dtype is not None else np.dtype("int64")
@@ -740,7 +768,7 @@ class _Loc:
         return self.df._mask(key)
 
 
-class DataFrame(_Gap):
+class DataFrame(_WithAccessor):
     def __init__(self, cols, present=None, index=None):
         cols = list(cols.items()) if isinstance(cols, dict) else list(cols)
         n = len(cols[0][1].vals) if cols else (len(index.labels) if index is not None else 0)
@@ -794,6 +822,8 @@ class DataFrame(_Gap):
             return self._mask(k)
         if isinstance(k, BoolArray):
             return self._mask(k)
+        if isinstance(k, DataFrame):
+            return self._where(k)
         if isinstance(k, (str, int)):
             if k not in self:
                 raise KeyError(k)
@@ -840,7 +870,9 @@ class DataFrame(_Gap):
 
     @property
     def shape(self):
-        raise ModelGap("DataFrame.shape is symbolic")
+        if all(z3.is_true(p) for p in self.present):
+            return (len(self.present), len(self._cols))  # no row was ever masked out
+        return _SymShape(self.present, len(self._cols))
 
     @property
     def empty(self):
@@ -867,6 +899,71 @@ class DataFrame(_Gap):
     def isna(self):
         return DataFrame([(k, c.isna()) for k, c in self._cols], present=self.present, index=self.index.copy())
 
+    # cell-wise operations (a built-in check attached to a DataFrameSchema is applied to the whole frame)
+    def _cellwise(self, f, o=None):
+        if isinstance(o, DataFrame):
+            if [k for k, _ in o._cols] != [k for k, _ in self._cols]:
+                raise ModelGap("cell-wise operation on frames with different columns")
+            return DataFrame([(k, f(c, o._get(k))) for k, c in self._cols], present=self.present, index=self.index.copy())
+        if isinstance(o, (Series, list, tuple, np.ndarray, real_pd.Series)):
+            raise ModelGap("cell-wise frame operation with a vector")
+        return DataFrame([(k, f(c, o)) for k, c in self._cols], present=self.present, index=self.index.copy())
+
+    def __ge__(self, o):
+        return self._cellwise(lambda c, x: c >= x, o)
+
+    def __gt__(self, o):
+        return self._cellwise(lambda c, x: c > x, o)
+
+    def __le__(self, o):
+        return self._cellwise(lambda c, x: c <= x, o)
+
+    def __lt__(self, o):
+        return self._cellwise(lambda c, x: c < x, o)
+
+    def __eq__(self, o):
+        return self._cellwise(lambda c, x: c == x, o)
+
+    def __ne__(self, o):
+        return self._cellwise(lambda c, x: c != x, o)
+
+    __hash__ = None
+
+    def __and__(self, o):
+        return self._cellwise(lambda c, x: c & x, o)
+
+    def __or__(self, o):
+        return self._cellwise(lambda c, x: c | x, o)
+
+    def __invert__(self):
+        return DataFrame([(k, ~c) for k, c in self._cols], present=self.present, index=self.index.copy())
+
+    def isin(self, values):
+        return DataFrame([(k, c.isin(values)) for k, c in self._cols], present=self.present, index=self.index.copy())
+
+    def _where(self, m):
+        """frame[boolean frame]: cells where the mask is False become null"""
+        if [k for k, _ in m._cols] != [k for k, _ in self._cols]:
+            raise ModelGap("boolean frame mask with different columns")
+        cols = []
+        for k, c in self._cols:
+            mv = m._get(k).vals
+            cols.append((k, c._new(nulls=[z3.Or(nl, z3.Not(x)) for nl, x in zip(c.nulls, mv)])))
+        return DataFrame(cols, present=self.present, index=self.index.copy())
+
+    def rename_axis(self, name, axis=0):
+        if axis != 0 or isinstance(self.index, MultiIndex):
+            raise ModelGap("rename_axis")
+        new = self.copy()
+        new.index = Index(self.index.labels, self.present, name=name, dtype=self.index.dtype)
+        return new
+
+    def set_index(self, key, drop=True):
+        c = self._get(key)
+        if any(z3.is_expr(x) for x in c.vals):
+            raise ModelGap("set_index on a symbolic column")
+        return _ColumnIndexed(self, key)
+
     def any(self, axis=0):
         if axis not in (0, "index"):
             raise ModelGap("DataFrame.any(axis=1)")
@@ -878,7 +975,9 @@ class DataFrame(_Gap):
         if axis in (1, "columns"):
             n = len(self.present)
             return Series([zand(c.vals[i] for _, c in self._cols) for i in range(n)], present=self.present, index=self.index.copy(), dtype=np.dtype(bool), kind="bool")
-        raise ModelGap("DataFrame.all(axis=None)")
+        if axis is None:
+            return sb(zand(c.all().z for _, c in self._cols))
+        raise ModelGap("DataFrame.all(axis=%r)" % (axis,))
 
     def dropna(self):
         anynull = [zor(c.nulls[i] for _, c in self._cols) for i in range(len(self.present))]
@@ -937,7 +1036,11 @@ class DataFrame(_Gap):
 
     def reset_index(self, drop=False):
         if not drop:
-            raise ModelGap("DataFrame.reset_index(drop=False)")
+            if isinstance(self.index, MultiIndex):
+                raise ModelGap("DataFrame.reset_index(drop=False) on a MultiIndex")
+            idx_name = self.index.name or "index"
+            idx_col = Series(self.index.labels, present=self.present, name=idx_name, dtype=self.index.dtype)
+            return DataFrame([(idx_name, idx_col)] + list(self._cols), present=self.present)
         labels, cnt = [], z3.IntVal(0)
         for p in self.present:
             labels.append(cnt)
@@ -955,6 +1058,76 @@ class DataFrame(_Gap):
         if isinstance(self.index, MultiIndex):
             raise ModelGap("sort_values with MultiIndex")
         return DataFrame(cols, present=newp, index=Index(perm(self.index.labels), newp, self.index.name))
+
+
+class _SymShape:
+    """shape of a frame with masked rows: only comparable with the shape of a frame over the same row mask"""
+
+    def __init__(self, present, ncols):
+        self.present, self.ncols = present, ncols
+
+    def __eq__(self, o):
+        if isinstance(o, _SymShape) and len(o.present) == len(self.present) and all(a.eq(b) for a, b in zip(self.present, o.present)):
+            return self.ncols == o.ncols
+        raise ModelGap("DataFrame.shape is symbolic")
+
+    __hash__ = None
+
+    def __getitem__(self, i):
+        if i == 1:
+            return self.ncols
+        raise ModelGap("DataFrame.shape is symbolic")
+
+
+class CaseDict:
+    """a dict whose membership and values depend on the cells: entries (key, condition, value term, null term).  It is what
+    `failure_cases.set_index("column").groupby("index").agg(lambda s: s.to_dict())` puts in a cell; evaluated under a model by
+    pvharness.Vals.term"""
+
+    def __init__(self, entries):
+        self.entries = list(entries)
+
+    def __repr__(self):
+        return "<?dict>"
+
+
+class _GroupCell:
+    def __init__(self, entries):
+        self.entries = entries
+
+    def to_dict(self):
+        return CaseDict(self.entries)
+
+
+class _ColumnIndexed(_Gap):
+    """frame.set_index(<column with concrete values>) — only what PandasCheckBackend.postprocess_table does with it"""
+
+    def __init__(self, df, key):
+        self.df, self.key = df, key
+
+    def groupby(self, by):
+        return _ColumnIndexedGroupBy(self.df, self.key, by)
+
+
+class _ColumnIndexedGroupBy(_Gap):
+    def __init__(self, df, key, by):
+        self.df, self.key, self.by = df, key, by
+
+    def agg(self, fn):
+        df = self.df
+        keys, labels = df._get(self.key).vals, df._get(self.by).vals
+        n = len(df.present)
+        rest = [(k, c) for k, c in df._cols if k not in (self.key, self.by)]
+        # one result row per distinct group label: the slot of its first present row stands for the group
+        first = [z3.And(df.present[s], z3.Not(zor(z3.And(df.present[t], labels[t] == labels[s]) for t in range(s)))) for s in range(n)]
+        cols = []
+        for k, c in rest:
+            cells = []
+            for s in range(n):
+                entries = [(keys[t], z3.And(df.present[t], labels[t] == labels[s]), c.vals[t], c.nulls[t]) for t in range(n)]
+                cells.append(fn(_GroupCell(entries)))
+            cols.append((k, Series(cells, present=first, kind="object", dtype=np.dtype(object))))
+        return DataFrame(cols, present=first, index=Index(labels, first, name=self.by))
 
 
 class _FrameGroupBy:
